@@ -209,6 +209,7 @@ def run(spec, cfg=None, mode="check", workers=None, env=None, timeout=1200, cove
     res.stdout = out
     in_cex = False
     cex = []
+    pending = None
     for line in out.splitlines():
         m = _RE_STATES.search(line)
         if m:
@@ -237,8 +238,18 @@ def run(spec, cfg=None, mode="check", workers=None, env=None, timeout=1200, cove
             old = res.coverage.get(a, (0, 0))
             res.coverage[a] = (old[0] + d, old[1] + tot)
         ls = line.strip()
+        if pending is not None:
+            # TLC wraps long printed values over several lines: join until the brackets balance
+            pending += " " + ls
+            if _balanced(pending):
+                res.prints.append(re.sub(r"^<<\s+", "<<", pending))
+                pending = None
+            continue
         if ls.startswith("<<") or ls.startswith('"{') or ls.startswith('"['):
-            res.prints.append(ls)
+            if ls.startswith("<<") and not _balanced(ls):
+                pending = ls
+            else:
+                res.prints.append(ls)
     res.counterexample = "\n".join(cex[:400])
     if mode == "simulate" and res.generated == 0:
         m = re.findall(r"Progress: (\d+) states checked, (\d+) traces generated", out)
@@ -255,6 +266,34 @@ def run(spec, cfg=None, mode="check", workers=None, env=None, timeout=1200, cove
             re.search(r"traces generated", out) and "Error:" not in out:
         res.status = "ok"
     return res
+
+
+def _balanced(t):
+    depth = 0
+    i = 0
+    instr = False
+    while i < len(t):
+        c = t[i]
+        if instr:
+            if c == "\\":
+                i += 2
+                continue
+            if c == '"':
+                instr = False
+            i += 1
+            continue
+        if c == '"':
+            instr = True
+            i += 1
+        elif t.startswith("<<", i):
+            depth += 1
+            i += 2
+        elif t.startswith(">>", i):
+            depth -= 1
+            i += 2
+        else:
+            i += 1
+    return depth <= 0
 
 
 def require_ok(res, what):
